@@ -8,6 +8,11 @@
 (* smaller than the spare capacity; otherwise flush first if it is larger     *)
 (* than the spare capacity, then write through if it is at least Cap, else    *)
 (* buffer it.                                                                 *)
+(* In append mode `disk' = disk \o ..` is the whole truth about where bytes   *)
+(* go: the end of the file as it is at that moment (O_APPEND), not the end as *)
+(* it was when the appender opened it.  A successor appender opened on the    *)
+(* same path while this one is alive (a reconfiguration) therefore is the     *)
+(* same `disk`; the recorded traces contain such successors.                  *)
 (***************************************************************************)
 EXTENDS Integers, Sequences, FiniteSets, TLC
 CONSTANTS Threads,      \* thread ids: positive integers (0 is "nobody" / pre-existing)
